@@ -66,10 +66,6 @@ def apply_edit(root, rel, old, new):
 def new_findings(repo, prop):
     """keys of findings of `prop` on `repo` that are not listed as known; raises AnalysisError"""
     mod = importlib.import_module(f'pwsa.rules.{prop.lower()}')
-    from . import lifecycle
-    lifecycle._cache.clear()
-    from .rules import c04
-    c04._so_cache.clear()
     prog = load(repo)
     an = Analyzer(prog)
     ctx = Ctx(prop, prog, an, 'quick', 0)
